@@ -639,3 +639,221 @@ Example C03_shots_example :
 Proof.
   split; [reflexivity|]. rewrite rsum_bv by auto. cbn [bsum key_eqb Bool.eqb andb]. rewrite Cmod_1, Cmod_0. ring.
 Qed.
+
+(* ================================================================== 7. THE LAYERED CLASSES END TO END  [block of agent/c03lay -- BEGIN]
+   StandardCircuit / EfficientCircuit / OneCircuit (= AlternativeCircuit with the Standard / Efficient / ForOnes backend); the grid class
+   Circuit shares the simulator branch (same calls: correspondence) but its own statevector() has no Coq model, so the theorems below
+   speak about the three AlternativeCircuit classes.
+   Model/SimLoopLayered.v is the executable model of _preprocess_circuit and of the else-branch of _apply_gates_on_circuit
+   (simulator.py:198-243, 431-489), tied to the code by the exact correspondence run of checks/c03.py (family simloop_translate_layered:
+   the recorded method calls -- I(k) included -- of the real simulator on each of the four classes = translate_calls_layered evaluated
+   by vm_compute, builder exceptions included).  Vocabulary:
+     group            what one kept instruction makes the loop do: GRz q th (circ.Rz(q, theta), q = the PHYSICAL label used as index),
+                      G1 k q / G2 k c t / GRelax q d (the `for k in range(nqubit)` loop: the gate on its own qubit, nothing for the target
+                      of a two-qubit gate, circ.I(k) on every other qubit);  group_calls nq g = those calls;
+     translate_groups used data : res (list group);   calls_of_groups nq gs = all calls of the shot, then bitflip(k, tm[k], rout[k]), k < nq;
+     translate_calls_layered used nq data = rmap (calls_of_groups nq) (translate_groups used data);   translate_layered = the noise-free
+                      program (delay groups dropped);
+     id_layout n = [0; ...; n-1];   adjacent_q x: a cx / ecr acts on labels c, t with |c - t| = 1;
+     group_wf n / group_adj: every index < n, two-qubit groups on distinct / neighbouring indices;
+     shot_ops n gs    the builder operations of the shot: every call with the matrix the noise-free gate set returns as its token (framed matrix
+                      at the frame of the moment; the exact identity for relaxation / bitflip);  flat_ops cs: the same as a function of the FLAT
+                      call list;   shot_layers n gs: one layer per sx / x / cx / ecr (NoiseFreeRun.layer_of), the all-identity layer per delay,
+                      the final all-identity layer of the read-out;
+     backend_run bk n ls psi   AlternativeCircuit.statevector: psi itself when nothing is stored, else std / eff (min 3, opt 4) / ones;
+     backend_ok bk n  the backend's own assertion: True / (8 <= n -> 2 * eff_nchunks n 3 4 <= 26) / n <= 26;
+     nf_perform_layered bk theta dur data psi0 : front_out -> res (list R)   the shot: calls -> lexec (C11's lstep) -> stored layers ->
+                      backend_run -> Born rule over the basis states in index order. *)
+Require Import QG.Model.SimLoopLayered QG.Proofs.SimLoopLayeredBuilder QG.Proofs.SimLoopLayeredCalls QG.Proofs.SimLoopLayered.
+Require Import QG.Proofs.SimLoopLayeredE2E QG.Proofs.SimLoopLayeredC QG.Proofs.BackendsEffFull.
+From Coq Require Import Lia.
+
+(* (i) C03_layered_builder_full (stated above as a Definition) holds: the layered builder lstep, fed the simulator's per-qubit calls,
+   stores exactly run_layers and is back at _s = 0 *)
+Theorem C03_layered_builder : C03_layered_builder_full.
+Proof. exact layered_builder_full. Qed.
+Print Assumptions C03_layered_builder.
+
+(* the same for the calls of the loop, relaxation and bitflip included: the operations are a function of the flat call list; a fresh
+   AlternativeCircuit never raises, holds shot_layers and is at _s = 0; these layers are well-formed, non-empty input of the C01 backend
+   theorems and denote, under C01's layers_sem, run_items of the noise-free program *)
+Theorem C03_layered_calls_builder :
+  forall (T : Type) (rO rI : T) (radd rmul rsub : T -> T -> T) (ropp : T -> T),
+  ring_theory rO rI radd rmul rsub ropp eq ->
+  forall (A D : Type) (K : consts T A) (ph : A -> Z * Z) (n : nat) (bk : backend_kind) (gs : list (group A D)),
+  (1 <= n)%nat -> Forall (group_wf A D n) gs -> Forall (group_adj A D) gs ->
+  shot_ops T rO rI radd rmul ropp A D K ph n gs = flat_ops T rO rI radd rmul ropp A D K ph (calls_of_groups A D n gs) /\
+  (exists s', lexec (mat T) (mid2 T rO rI) (l_init (mat T) n bk) (shot_ops T rO rI radd rmul ropp A D K ph n gs) = Ok (s', nil) /\
+     map (map (ent_den T)) (l_content (mat T) s') = shot_layers T rO rI radd rmul ropp A D K n gs /\
+     l_s (mat T) s' = 0%nat /\ l_bk (mat T) s' = bk) /\
+  Forall (wf_layer T n) (shot_layers T rO rI radd rmul ropp A D K n gs) /\
+  shot_layers T rO rI radd rmul ropp A D K n gs <> nil /\
+  forall (psi : bits -> T) (b : bits),
+    layers_sem T radd rmul (shot_layers T rO rI radd rmul ropp A D K n gs) psi b
+    = sem T radd rmul (run_items T rO rI radd rmul ropp A K (nf_prog_groups A D gs)) psi b.
+Proof. exact calls_builder_layers. Qed.
+Print Assumptions C03_layered_calls_builder.
+
+(* AlternativeCircuit.statevector on well-formed layers returns the layered specification (C01_std_spec / C01_eff_spec / C01_ones_spec) *)
+Theorem C03_layered_backend :
+  forall (T : Type) (rO rI : T) (radd rmul rsub : T -> T -> T) (ropp : T -> T),
+  ring_theory rO rI radd rmul rsub ropp eq ->
+  forall is_id : Backends.entry T -> bool,
+  (forall e, is_id e = true -> exists a, e = Backends.En2 a /\ forall r c, a r c = id2 T rO rI r c) ->
+  forall (bk : backend_kind) (n : nat) (ls : list (list (Backends.entry T))) (psi : state T),
+  (1 <= n)%nat -> ls <> nil -> Forall (wf_layer T n) ls -> backend_ok bk n ->
+  exists out, backend_run T rI radd rmul is_id bk n ls psi = Ok out /\ state_eq T n out (layers_sem T radd rmul ls psi).
+Proof. exact backend_run_spec. Qed.
+Print Assumptions C03_layered_backend.
+
+(* (ii) on data as Qiskit builds it whose used labels are exactly 0..n-1 and whose cx / ecr act on neighbouring labels, the layered loop
+   raises nothing with nqubit = n; every group addresses indices < n (two-qubit groups distinct neighbouring ones); the noise-free program
+   is well-formed over n qubits and adjacent *)
+Theorem C03_translate_layered_wf :
+  forall (A D : Type) (theta : nat -> A) (dur : nat -> D)
+         (data : list SimRun.instr) (used : list BinNums.N) (meas : list (BinNums.N * BinNums.N)) (n : nat),
+  Forall wf_qiskit data -> SimRun.process_layout data = Ok (used, meas, n) -> used = id_layout n -> Forall adjacent_q data ->
+  exists gs, translate_groups A D theta dur used data = Ok gs /\
+    Forall (group_wf A D n) gs /\ Forall (group_adj A D) gs /\
+    translate_calls_layered A D theta dur used (BinInt.Z.of_nat n) data = Ok (calls_of_groups A D n gs) /\
+    translate_layered A D theta dur used data = Ok (nf_prog_groups A D gs) /\
+    Forall (NoiseFreeRun.wf_instr n) (nf_prog_groups A D gs) /\ Forall NoiseFreeRun.adjacent_instr (nf_prog_groups A D gs).
+Proof. exact translate_layered_wf. Qed.
+Print Assumptions C03_translate_layered_wf.
+
+(* with the layout 0..n-1 (qubits_layout.index(q) = q) the layered branch and the index branch of Model/SimLoop.v yield the SAME
+   noise-free program: the `prog` of C03_end_to_end and of C03_end_to_end_layered coincide *)
+Theorem C03_translate_layered_is_translate :
+  forall (A D : Type) (theta : nat -> A) (dur : nat -> D)
+         (data : list SimRun.instr) (used : list BinNums.N) (meas : list (BinNums.N * BinNums.N)) (n : nat),
+  Forall wf_qiskit data -> SimRun.process_layout data = Ok (used, meas, n) -> used = id_layout n ->
+  translate A D theta dur used (BinInt.Z.of_nat n) data = translate_layered A D theta dur used data.
+Proof. exact translate_layered_is_translate. Qed.
+Print Assumptions C03_translate_layered_is_translate.
+
+(* (iii) END TO END for the layered classes, same shape as C03_end_to_end: for every commutative ring T with the named constants and a
+   conjugation, every Born reading, every sound identity test of BackendForOnes, every backend kind bk whose own assertion holds at n:
+   if run() accepts the arguments, the data is as Qiskit builds it on labels 0..n-1 with neighbouring two-qubit gates, every qubit is
+   measured at most once and nqubit = n, then the loop succeeds with a well-formed adjacent program prog and -- when the ideal weights do
+   not all vanish -- run() around the layered noise-free shot (calls -> builder -> stored layers -> backend -> Born rule) returns a
+   dictionary whose value under every key t is the normalised sum of the IDEAL circuit's Born weights over the basis states b with
+   b[rank of k-th measured qubit] = t[k] *)
+Theorem C03_end_to_end_layered :
+  forall (T : Type) (rO rI : T) (radd rmul rsub : T -> T -> T) (ropp : T -> T),
+  ring_theory rO rI radd rmul rsub ropp eq ->
+  forall (A : Type) (K : consts T A), consts_ok T rI rmul ropp A K ->
+  forall cj : T -> T, conj_ok T rI rmul ropp A K cj ->
+  forall born : T -> Rdefinitions.R,
+  (forall x y, nrm T rmul cj x = nrm T rmul cj y -> born x = born y) -> (forall x, (0 <= born x)%R) ->
+  forall (D : Type) (theta : nat -> A) (dur : nat -> D) (ph : A -> Z * Z) (is_id : Backends.entry T -> bool),
+  (forall e, is_id e = true -> exists a, e = Backends.En2 a /\ forall r c, a r c = id2 T rO rI r c) ->
+  forall (bk : backend_kind) (a : args) (f : front_out) (data : list SimRun.instr) (psi0 : state T),
+  front a = Ok f -> a_circ a = CData true data -> Forall wf_qiskit data ->
+  NoDup (map fst (f_meas f)) -> f_nqubit f = BinInt.Z.of_nat (f_n f) ->
+  f_used f = id_layout (f_n f) -> Forall adjacent_q data -> backend_ok bk (f_n f) ->
+  exists prog, translate_layered A D theta dur (f_used f) data = Ok prog /\
+    Forall (NoiseFreeRun.wf_instr (f_n f)) prog /\ Forall NoiseFreeRun.adjacent_instr prog /\
+    let ideal := fun b => born (sem T radd rmul (ideal_items T rO rI radd rmul ropp A K prog) psi0 b) in
+    let total := rsum (map ideal (binary_vector (f_n f))) in
+    ((0 < total)%R ->
+     exists out, run_model Rdefinitions.R 0%R Rplus Rdiv rpos a
+                   (nf_perform_layered T rO rI radd rmul ropp A D K ph is_id Rdefinitions.R born bk theta dur data psi0) = Ok out /\
+       forall t, List.length t = List.length (f_meas f) ->
+         lookup Rdefinitions.R t out = Some (marginal_sum (fun b => (ideal b / total)%R) (f_n f) (meas_ranks f) t)).
+Proof. exact end_to_end_layered. Qed.
+Print Assumptions C03_end_to_end_layered.
+
+(* the same at the complex numbers: constants KC, Born rule |amplitude|^2, every hypothesis on the scalars discharged *)
+Theorem C03_end_to_end_layered_C :
+  forall (D : Type) (theta : nat -> Rdefinitions.R) (dur : nat -> D) (ph : Rdefinitions.R -> Z * Z) (is_id : Backends.entry C -> bool),
+  (forall e, is_id e = true -> exists a, e = Backends.En2 a /\ forall r c, a r c = id2 C (RtoC 0) (RtoC 1) r c) ->
+  forall (bk : backend_kind) (a : args) (f : front_out) (data : list SimRun.instr) (psi0 : state C),
+  front a = Ok f -> a_circ a = CData true data -> Forall wf_qiskit data ->
+  NoDup (map fst (f_meas f)) -> f_nqubit f = BinInt.Z.of_nat (f_n f) ->
+  f_used f = id_layout (f_n f) -> Forall adjacent_q data -> backend_ok bk (f_n f) ->
+  exists prog, translate_layered Rdefinitions.R D theta dur (f_used f) data = Ok prog /\
+    Forall (NoiseFreeRun.wf_instr (f_n f)) prog /\ Forall NoiseFreeRun.adjacent_instr prog /\
+    let ideal := fun b => (Cmod (sem C Cplus Cmult (ideal_items C (RtoC 0) (RtoC 1) Cplus Cmult Copp Rdefinitions.R KC prog) psi0 b) ^ 2)%R in
+    let total := rsum (map ideal (binary_vector (f_n f))) in
+    ((0 < total)%R ->
+     exists out, run_model Rdefinitions.R 0%R Rplus Rdiv rpos a
+                   (nf_perform_layered C (RtoC 0) (RtoC 1) Cplus Cmult Copp Rdefinitions.R D KC ph is_id Rdefinitions.R bornC bk theta dur data psi0) = Ok out /\
+       forall t, List.length t = List.length (f_meas f) ->
+         lookup Rdefinitions.R t out = Some (marginal_sum (fun b => (ideal b / total)%R) (f_n f) (meas_ranks f) t)).
+Proof. exact end_to_end_layered_C. Qed.
+Print Assumptions C03_end_to_end_layered_C.
+
+(* reading of the statements' vocabulary *)
+Theorem C03_end_to_end_layered_vocabulary :
+  (forall n, id_layout n = map BinNat.N.of_nat (seq 0 n)) /\
+  (forall n, backend_ok BkStandard n = True /\ backend_ok BkOnes n = (n <= 26)%nat /\
+             backend_ok BkEfficient n = ((4 <= n)%nat -> (2 * 4 <= n)%nat -> (2 * eff_nchunks n 3 4 <= 26)%nat)) /\
+  (forall (A D : Type) nq k1 q, group_calls A D nq (G1 k1 q)
+      = map (fun k => if Nat.eqb k q then LC (C1 k1 k (BinNat.N.of_nat k)) else LI k) (seq 0 nq)) /\
+  (forall (A D : Type) nq k2 c t, group_calls A D nq (G2 k2 c t)
+      = flat_map (fun k => if Nat.eqb k c then [LC (C2 k2 k t (BinNat.N.of_nat k) (BinNat.N.of_nat t))]
+                           else if Nat.eqb k t then [] else [LI k]) (seq 0 nq)) /\
+  (forall (A D : Type) nq gs, calls_of_groups A D nq gs
+      = (flat_map (group_calls A D nq) gs ++ map (fun k => LC (CBitflip k (BinNat.N.of_nat k))) (seq 0 nq))%list).
+Proof. repeat split. Qed.
+Print Assumptions C03_end_to_end_layered_vocabulary.
+
+(* non-vacuity: rz(0); delay(3) [label 3 otherwise unused: dropped]; cx(2,1) [control has the higher index]; barrier(0,1,2,3); delay(1);
+   measure 1 -> c1; ecr(0,1); x(2); then all three measured, on labels {0,1,2}: accepted by run(), well-formed, neighbouring pairs, layout
+   0..2, every backend's assertion holds at n = 3; the calls (I(k) padding, no call for the target, the three bitflips) and the noise-free
+   program computed by the model; the index-class model computes the same program; measured ranks [1; 0; 2] *)
+Example C03_end_to_end_layered_example :
+  let data := [mkinstr OpRz [0%N] []; mkinstr OpDelay [3%N] []; mkinstr OpCx [2%N; 1%N] []; mkinstr OpBarrier [0%N; 1%N; 2%N; 3%N] [];
+               mkinstr OpDelay [1%N] []; mkinstr OpMeasure [1%N] [1%N]; mkinstr OpEcr [0%N; 1%N] []; mkinstr OpX [2%N] [];
+               mkinstr OpMeasure [0%N] [0%N]; mkinstr OpMeasure [2%N] [2%N]] in
+  let a := mkargs (CData true data) true (PsiShape [8%Z]) (Some 3%Z) (Some (T1Len 8%Z)) (Some 3%Z) in
+  let f := mkfront [0%N; 1%N; 2%N] [(1%N, 1%N); (0%N, 0%N); (2%N, 2%N)] 3 3%Z 3%Z in
+  front a = Ok f /\ Forall wf_qiskit data /\ NoDup (map fst (f_meas f)) /\ f_nqubit f = BinInt.Z.of_nat (f_n f) /\
+  f_used f = id_layout (f_n f) /\ Forall adjacent_q data /\
+  (backend_ok BkStandard (f_n f) /\ backend_ok BkEfficient (f_n f) /\ backend_ok BkOnes (f_n f)) /\
+  translate_calls_layered nat nat (fun j => j) (fun j => j) (f_used f) (f_nqubit f) data
+    = Ok [LC (CRz 0 0);
+          LI 0 (* cx(2,1): k = 0 identity, k = 1 is the target: no call, k = 2 the gate *); LC (C2 KCX 2 1 2%N 1%N);
+          LI 0; LC (CRelax 1 4 1%N); LI 2;
+          LC (C2 KECR 0 1 0%N 1%N); LI 2;
+          LI 0; LI 1; LC (C1 KX 2 2%N);
+          LC (CBitflip 0 0%N); LC (CBitflip 1 1%N); LC (CBitflip 2 2%N)] /\
+  translate_layered nat nat (fun j => j) (fun j => j) (f_used f) data = Ok [NoiseFreeRun.NRz 0 0; NCX 2 1; NoiseFreeRun.NECR 0 1; NoiseFreeRun.NX 2] /\
+  translate nat nat (fun j => j) (fun j => j) (f_used f) (f_nqubit f) data = Ok [NoiseFreeRun.NRz 0 0; NCX 2 1; NoiseFreeRun.NECR 0 1; NoiseFreeRun.NX 2] /\
+  meas_ranks f = [1; 0; 2]%nat.
+Proof.
+  cbv zeta. split; [vm_compute; reflexivity|]. split.
+  { repeat (apply Forall_cons; [unfold wf_qiskit; cbn; eauto; try (do 2 eexists; split; [reflexivity|discriminate]); try discriminate|]). apply Forall_nil. }
+  split. { cbn. repeat constructor; cbn; intuition discriminate. }
+  split; [reflexivity|]. split; [reflexivity|]. split.
+  { repeat (apply Forall_cons; [unfold adjacent_q; cbn; auto|]). apply Forall_nil. }
+  split. { cbn. repeat split; intros; lia. }
+  repeat split; vm_compute; reflexivity.
+Qed.
+(* ---- the grid class Circuit: what is NOT proved, stated in full ----
+   Circuit shares the simulator branch (the calls are the same: correspondence on every run, its own exceptions through C11's gstep), but
+   Circuit.statevector (kron-reduce per column, product of the columns) has no Coq model, so there is no end-to-end theorem for it.  The
+   builder half, stated: constructed with depth = the number of layers the shot fills (= len(data) - n_rz + 1 when every kept non-rz
+   instruction issues calls), the grid builder gstep fed the same operations never raises and its columns are exactly shot_layers *)
+Definition C03_grid_builder_full : Prop :=
+  forall (T : Type) (rO rI : T) (radd rmul : T -> T -> T) (ropp : T -> T) (A D : Type) (K : consts T A) (ph : A -> Z * Z)
+         (n : nat) (gs : list (group A D)),
+  (1 <= n)%nat -> Forall (group_wf A D n) gs -> Forall (group_adj A D) gs ->
+  exists sg, gexec (mat T) (mid2 T rO rI) (g_init (mat T) n (List.length (shot_layers T rO rI radd rmul ropp A D K n gs)))
+               (shot_ops T rO rI radd rmul ropp A D K ph n gs) = Ok (sg, nil) /\
+    map (map (ent_den T)) (g_content (mat T) sg) = shot_layers T rO rI radd rmul ropp A D K n gs.
+(* computed instance (matrices abstracted to unit, as in the correspondence run): on the 14 calls of the example above, with the depth the
+   simulator passes, the grid builder and the layered builder hold the same five columns / layers *)
+Example C03_grid_builder_example :
+  let data := [mkinstr OpRz [0%N] []; mkinstr OpDelay [3%N] []; mkinstr OpCx [2%N; 1%N] []; mkinstr OpBarrier [0%N; 1%N; 2%N; 3%N] [];
+               mkinstr OpDelay [1%N] []; mkinstr OpMeasure [1%N] [1%N]; mkinstr OpEcr [0%N; 1%N] []; mkinstr OpX [2%N] [];
+               mkinstr OpMeasure [0%N] [0%N]; mkinstr OpMeasure [2%N] [2%N]] in
+  let cs := match translate_calls_layered nat nat (fun j => j) (fun j => j) [0%N; 1%N; 2%N] 3%Z data with Ok c => c | Err _ => nil end in
+  let cols := [[Builders.En2 tt; Builders.EnOne; Builders.En4 tt]; [Builders.En2 tt; Builders.En2 tt; Builders.En2 tt];
+               [Builders.En4 tt; Builders.EnOne; Builders.En2 tt]; [Builders.En2 tt; Builders.En2 tt; Builders.En2 tt];
+               [Builders.En2 tt; Builders.En2 tt; Builders.En2 tt]] in
+  List.length cs = 14%nat /\ depth_of [0%N; 1%N; 2%N] data = Ok 5%nat /\
+  rmap (fun r => (g_content unit (fst r), snd r)) (gexec unit tt (g_init unit 3 5) (map unit_op cs)) = Ok (cols, nil) /\
+  rmap (fun r => (l_content unit (fst r), snd r)) (lexec unit tt (l_init unit 3 BkStandard) (map unit_op cs)) = Ok (cols, nil).
+Proof. cbv zeta. split; [vm_compute; reflexivity|]. split; [vm_compute; reflexivity|]. split; vm_compute; reflexivity. Qed.
+(* [block of agent/c03lay -- END] *)
